@@ -3,8 +3,11 @@ package main
 import (
 	"fmt"
 	"go/ast"
+	"go/constant"
 	"go/token"
 	"go/types"
+	"sort"
+	"strings"
 
 	"golang.org/x/tools/go/ssa"
 )
@@ -187,20 +190,27 @@ func ruleA2(c *Ctx) {
 		c.anchorFail("fcomp.args not found")
 		return
 	}
-	// how is the opcode derived from callmode: arithmetic (CALL + Opcode(callmode)) or a lookup table?
+	// how is the opcode derived from the call mode: arithmetic (CALL + Opcode(mode)) or a lookup table
+	// (a package-level array of opcodes indexed by the mode)?
 	usesArith, tableName := false, ""
 	ast.Inspect(args.Body, func(n ast.Node) bool {
 		switch x := n.(type) {
 		case *ast.BinaryExpr:
 			if x.Op == token.ADD {
-				if id, ok := x.X.(*ast.Ident); ok && id.Name == "CALL" {
-					usesArith = true
+				for _, e := range []ast.Expr{x.X, x.Y} {
+					if tv, ok := cpk.TypesInfo.Types[e]; ok && tv.Value != nil && strings.HasSuffix(tv.Type.String(), "compile.Opcode") {
+						if k, ok := constant.Int64Val(tv.Value); ok && k == base {
+							usesArith = true
+						}
+					}
 				}
 			}
 		case *ast.IndexExpr:
 			if id, ok := x.X.(*ast.Ident); ok {
-				if ix, ok := x.Index.(*ast.Ident); ok && ix.Name == "callmode" {
-					tableName = id.Name
+				if v, ok := cpk.TypesInfo.Uses[id].(*types.Var); ok && v.Parent() == cpk.Types.Scope() {
+					if tv, ok := cpk.TypesInfo.Types[x]; ok && strings.HasSuffix(tv.Type.String(), "compile.Opcode") {
+						tableName = id.Name
+					}
 				}
 			}
 		}
@@ -238,115 +248,16 @@ func ruleA2(c *Ctx) {
 	default:
 		c.anchorFail("cannot find how fcomp.args derives the CALL opcode from callmode")
 	}
-	// compiler: callmode |= 1 under STAR, |= 2 under STARSTAR (if or switch form); push order varargs then kwargs
-	bits := map[string]int64{}
-	var stack []ast.Node
-	ast.Inspect(args.Body, func(n ast.Node) bool {
-		if n == nil {
-			stack = stack[:len(stack)-1]
-			return true
-		}
-		stack = append(stack, n)
-		as, ok := n.(*ast.AssignStmt)
-		if !ok || as.Tok != token.OR_ASSIGN {
-			return true
-		}
-		k, isK := constOf(cpk.TypesInfo, as.Rhs[0])
-		if !isK {
-			return true
-		}
-		// nearest enclosing condition naming a token
-		for i := len(stack) - 2; i >= 0; i-- {
-			var exprs []ast.Expr
-			switch x := stack[i].(type) {
-			case *ast.IfStmt:
-				exprs = []ast.Expr{x.Cond}
-			case *ast.CaseClause:
-				exprs = x.List
-			default:
-				continue
-			}
-			name := ""
-			for _, e := range exprs {
-				ast.Inspect(e, func(m ast.Node) bool {
-					if sel, ok := m.(*ast.SelectorExpr); ok && (sel.Sel.Name == "STAR" || sel.Sel.Name == "STARSTAR") {
-						name = sel.Sel.Name
-					}
-					return true
-				})
-			}
-			if name != "" {
-				bits[name] = k
-				break
-			}
-		}
-		return true
-	})
+	// compiler: the bit OR-ed into the call mode under a `*x` and under a `**x` argument, and the order in
+	// which their operands are compiled - read from the SSA (a2Compiler), so that helpers, renamings and
+	// if/switch reshaping do not matter
+	bits, order := a2Compiler(c)
 	key := "compiler: callmode bits"
 	if bits["STAR"] == 1 && bits["STARSTAR"] == 2 {
 		c.ok(key, c.P.Pos(args.Pos()), "*args sets bit 1, **kwargs sets bit 2")
 	} else {
 		c.viol(key, c.P.Pos(args.Pos()), fmt.Sprintf("callmode bits are %v; expected STAR:1 STARSTAR:2", bits))
 	}
-	// push order: the variables that receive the operand of a `*x` / `**x` argument (whatever they
-	// are called), in the order in which they are compiled
-	kindOf := map[string]string{}
-	stack = nil
-	ast.Inspect(args.Body, func(n ast.Node) bool {
-		if n == nil {
-			stack = stack[:len(stack)-1]
-			return true
-		}
-		stack = append(stack, n)
-		as, ok := n.(*ast.AssignStmt)
-		if !ok || as.Tok != token.ASSIGN || len(as.Lhs) != 1 {
-			return true
-		}
-		id, ok := as.Lhs[0].(*ast.Ident)
-		if !ok {
-			return true
-		}
-		for i := len(stack) - 2; i >= 0; i-- {
-			var exprs []ast.Expr
-			switch x := stack[i].(type) {
-			case *ast.IfStmt:
-				exprs = []ast.Expr{x.Cond}
-			case *ast.CaseClause:
-				exprs = x.List
-			default:
-				continue
-			}
-			name := ""
-			for _, e := range exprs {
-				ast.Inspect(e, func(m ast.Node) bool {
-					if sel, ok := m.(*ast.SelectorExpr); ok && (sel.Sel.Name == "STAR" || sel.Sel.Name == "STARSTAR") {
-						name = sel.Sel.Name
-					}
-					return true
-				})
-			}
-			if name == "STAR" {
-				kindOf[id.Name] = "varargs"
-			} else if name == "STARSTAR" {
-				kindOf[id.Name] = "kwargs"
-			}
-			if name != "" {
-				break
-			}
-		}
-		return true
-	})
-	var order []string
-	ast.Inspect(args.Body, func(n ast.Node) bool {
-		if call, ok := n.(*ast.CallExpr); ok {
-			if sel, ok := call.Fun.(*ast.SelectorExpr); ok && sel.Sel.Name == "expr" && len(call.Args) == 1 {
-				if id, ok := call.Args[0].(*ast.Ident); ok && kindOf[id.Name] != "" {
-					order = append(order, kindOf[id.Name])
-				}
-			}
-		}
-		return true
-	})
 	// interpreter pop order: first if mentions CALL_KW, second CALL_VAR
 	sw, _ := interpSwitch(c)
 	var pops []string
@@ -536,4 +447,257 @@ func ruleA3(c *Ctx) {
 	if n < 8 {
 		c.anchorFail("only %d stores through the caller's pointer found in unpackArgNoEscape", n)
 	}
+}
+
+// a2Compiler reads, from the SSA of fcomp.args and of the helpers of its package that it calls, (1) the
+// constant OR-ed into the call mode on the paths where the argument's operator is the token STAR and where
+// it is STARSTAR, and (2) the order in which the two operands are compiled after the loop. A path "is
+// under token T" when a dominating comparison `x == T` holds on it, or a comparison `m == k` where m is a
+// result of a helper that returns the constant k exactly on its own paths under T (and, for a helper that
+// distinguishes exactly two tokens, the failing comparison stands for the other one).
+func a2Compiler(c *Ctx) (map[string]int64, []string) {
+	bits := map[string]int64{}
+	fn := c.P.Func(compilePkg, "fcomp.args")
+	spk := c.P.Pkg("syntax")
+	if fn == nil || spk == nil {
+		return bits, nil
+	}
+	tokName := map[int64]string{}
+	for _, n := range []string{"STAR", "STARSTAR"} {
+		if k, ok := spk.Types.Scope().Lookup(n).(*types.Const); ok {
+			if v, ok := constant.Int64Val(k.Val()); ok {
+				tokName[v] = n
+			}
+		}
+	}
+	isTok := func(v ssa.Value) (string, bool) {
+		k, ok := v.(*ssa.Const)
+		if !ok || !strings.HasSuffix(k.Type().String(), "syntax.Token") {
+			return "", false
+		}
+		n, ok := tokName[k.Int64()]
+		return n, ok
+	}
+	type summary map[int]map[string]int64 // result index -> token -> constant returned under it
+	sums := map[*ssa.Call]summary{}
+	var facts func(conds []pathCond, useSums bool) map[string]bool
+	facts = func(conds []pathCond, useSums bool) map[string]bool {
+		out := map[string]bool{}
+		for _, pc := range conds {
+			cv, neg := stripNot(pc.If.Cond)
+			b, ok := cv.(*ssa.BinOp)
+			if !ok || (b.Op != token.EQL && b.Op != token.NEQ) {
+				continue
+			}
+			eq := (b.Op == token.EQL) == (pc.Branch != neg)
+			for _, pr := range [][2]ssa.Value{{b.X, b.Y}, {b.Y, b.X}} {
+				if n, ok := isTok(pr[1]); ok && eq {
+					out[n] = true
+				}
+				if !useSums {
+					continue
+				}
+				k, isK := constInt(pr[1])
+				ex, isEx := pr[0].(*ssa.Extract)
+				if !isK || !isEx {
+					continue
+				}
+				call, _ := ex.Tuple.(*ssa.Call)
+				m := sums[call][ex.Index]
+				for t, kk := range m {
+					if kk == k && eq {
+						out[t] = true
+					}
+					if kk == k && !eq && len(m) == 2 {
+						for t2 := range m {
+							if t2 != t {
+								out[t2] = true
+							}
+						}
+					}
+				}
+			}
+		}
+		return out
+	}
+	eachInstr(fn, func(in ssa.Instruction) {
+		call, ok := in.(*ssa.Call)
+		if !ok {
+			return
+		}
+		h := call.Call.StaticCallee()
+		if h == nil || h.Pkg != fn.Pkg || len(h.Blocks) == 0 {
+			return
+		}
+		sm := summary{}
+		eachInstr(h, func(hi ssa.Instruction) {
+			ret, ok := hi.(*ssa.Return)
+			if !ok {
+				return
+			}
+			f := facts(pathConds(ret.Block()), false)
+			if len(f) != 1 {
+				return
+			}
+			for t := range f {
+				for j, r := range ret.Results {
+					if k, ok := constInt(r); ok && !strings.HasSuffix(r.Type().String(), "syntax.Token") {
+						if sm[j] == nil {
+							sm[j] = map[string]int64{}
+						}
+						sm[j][t] = k
+					}
+				}
+			}
+		})
+		if len(sm) > 0 {
+			sums[call] = sm
+		}
+	})
+	// (1) the bits
+	var rets []ssa.Value
+	eachInstr(fn, func(in ssa.Instruction) {
+		if r, ok := in.(*ssa.Return); ok && len(r.Results) > 0 {
+			rets = append(rets, r.Results[0])
+		}
+	})
+	// the values the returned opcode is computed from: through arithmetic, conversions, phis and the
+	// index of a table lookup (callOpcodes[mode])
+	feeds := map[ssa.Value]bool{}
+	var walk func(v ssa.Value, d int)
+	walk = func(v ssa.Value, d int) {
+		if v == nil || feeds[v] || d > 10 {
+			return
+		}
+		feeds[v] = true
+		switch x := v.(type) {
+		case *ssa.BinOp:
+			walk(x.X, d+1)
+			walk(x.Y, d+1)
+		case *ssa.Convert:
+			walk(x.X, d+1)
+		case *ssa.ChangeType:
+			walk(x.X, d+1)
+		case *ssa.Phi:
+			for _, e := range x.Edges {
+				walk(e, d+1)
+			}
+		case *ssa.UnOp:
+			walk(x.X, d+1)
+		case *ssa.IndexAddr:
+			walk(x.Index, d+1)
+		case *ssa.Index:
+			walk(x.Index, d+1)
+		case *ssa.Lookup:
+			walk(x.Index, d+1)
+		}
+	}
+	for _, r := range rets {
+		walk(r, 0)
+	}
+	flows := func(v ssa.Value) bool { return feeds[v] }
+	eachInstr(fn, func(in ssa.Instruction) {
+		b, ok := in.(*ssa.BinOp)
+		if !ok || b.Op != token.OR || !flows(b) {
+			return
+		}
+		for _, op := range []ssa.Value{b.X, b.Y} {
+			if k, ok := constInt(op); ok {
+				f := facts(pathConds(b.Block()), true)
+				if len(f) == 1 {
+					for t := range f {
+						bits[t] = k
+					}
+				}
+			}
+			if ex, ok := op.(*ssa.Extract); ok {
+				call, _ := ex.Tuple.(*ssa.Call)
+				for t, k := range sums[call][ex.Index] {
+					bits[t] = k
+				}
+			}
+		}
+	})
+	// (2) the order: calls one of whose arguments is a phi that receives, on an edge under token T, the
+	// operand of the argument
+	edgeConds := func(pred, succ *ssa.BasicBlock) []pathCond {
+		conds := pathConds(pred)
+		if len(pred.Instrs) > 0 {
+			if ifi, ok := pred.Instrs[len(pred.Instrs)-1].(*ssa.If); ok && pred.Succs[0] != pred.Succs[1] {
+				conds = append(conds, pathCond{ifi, pred.Succs[0] == succ})
+			}
+		}
+		return conds
+	}
+	var kindOf func(v ssa.Value, seen map[ssa.Value]bool) map[string]bool
+	kindOf = func(v ssa.Value, seen map[ssa.Value]bool) map[string]bool {
+		out := map[string]bool{}
+		phi, ok := v.(*ssa.Phi)
+		if !ok || seen[v] {
+			return out
+		}
+		seen[v] = true
+		for i, e := range phi.Edges {
+			if isNilConst(e) || e == v {
+				continue
+			}
+			if _, isPhi := e.(*ssa.Phi); isPhi {
+				for t := range kindOf(e, seen) {
+					out[t] = true
+				}
+				continue
+			}
+			f := facts(edgeConds(phi.Block().Preds[i], phi.Block()), true)
+			if len(f) == 1 {
+				for t := range f {
+					out[t] = true
+				}
+			} else {
+				out["?"] = true
+			}
+		}
+		return out
+	}
+	type site struct {
+		kind string
+		in   ssa.Instruction
+	}
+	var sites []site
+	eachInstr(fn, func(in ssa.Instruction) {
+		call, ok := in.(*ssa.Call)
+		if !ok {
+			return
+		}
+		for _, a := range call.Call.Args {
+			if _, isPhi := a.(*ssa.Phi); !isPhi || !strings.HasSuffix(a.Type().String(), "syntax.Expr") {
+				continue
+			}
+			k := kindOf(a, map[ssa.Value]bool{})
+			if len(k) == 1 {
+				for t := range k {
+					switch t {
+					case "STAR":
+						sites = append(sites, site{"varargs", in})
+					case "STARSTAR":
+						sites = append(sites, site{"kwargs", in})
+					}
+				}
+			}
+		}
+	})
+	before := func(a, b ssa.Instruction) bool {
+		if a.Block() == b.Block() {
+			return instrDominates(a, b)
+		}
+		return reachable(a.Block(), b.Block()) && !reachable(b.Block(), a.Block())
+	}
+	sort.SliceStable(sites, func(i, j int) bool { return before(sites[i].in, sites[j].in) })
+	var order []string
+	for i, s := range sites {
+		if i > 0 && !before(sites[i-1].in, s.in) {
+			order = append(order, "unordered")
+		}
+		order = append(order, s.kind)
+	}
+	return bits, order
 }
